@@ -53,7 +53,10 @@ def guard(fn):
 
 
 def hname(pll):
-    return type(pll).__name__.lower()
+    n = type(pll).__name__
+    if n == "GW2APLL":
+        n = "GW1NPLL"          # same code (GW2APLL only overrides the VCO/PFD tables): one mechanism key per defect
+    return n.lower()
 
 
 def _fail(pll, mech, what, **witness):
@@ -359,6 +362,51 @@ def gowin_solve_single(desc):
             for odiv in model.spec_values(desc["odiv"]):
                 if model.strictly_in_window(base*odiv, desc["vco"]):
                     return {"idiv": idiv, "fdiv": fdiv, "odiv": odiv, "clkout": base, "vco": base*odiv}
+    return None
+
+
+def gowin_solve_multi(desc):
+    """Several requested outputs, all with phase 0: is there a base frequency (IDIV, FBDIV, ODIV of the scanned sets) and an
+    injective assignment of the requests to the pins CLKOUT, CLKOUTP (same frequency), CLKOUTD3 (/3), CLKOUTD (/even 2..128)?"""
+    import itertools
+    outs = desc["outs"]
+    if any(p != 0 for f, p, m in outs) or len(outs) > 4:
+        return None
+    clkin = desc["clkin"]
+    odivs = model.spec_values(desc["odiv"])
+    sdivs = model.spec_values(desc["sdiv"])
+    for idiv in model.spec_values(desc["idiv"]):
+        if not model.strictly_in_window(clkin/idiv, desc["pfd"]):
+            continue
+        for fdiv in model.spec_values(desc["fdiv"]):
+            base = clkin*fdiv/idiv
+            od = [o for o in odivs if model.strictly_in_window(base*o, desc["vco"])]
+            if not od:
+                continue
+            feas = []
+            for f, p, m in outs:
+                pins = []
+                if model.strictly_within_margin(base, f, m):
+                    pins += [("CLKOUT", None), ("CLKOUTP", None)]
+                if model.strictly_within_margin(base/3, f, m):
+                    pins.append(("CLKOUTD3", None))
+                for sd in model.spec_near(base/f, desc["sdiv"]):
+                    if sd in sdivs and model.strictly_within_margin(base/sd, f, m):
+                        pins.append(("CLKOUTD", sd))
+                        break
+                if not pins:
+                    feas = None
+                    break
+                feas.append(pins)
+            if feas is None:
+                continue
+            top = max(range(len(outs)), key=lambda i: outs[i][0])
+            for combo in itertools.product(*feas):
+                names = [c[0] for c in combo]
+                # only settings of the shape the helper itself aims at: the fastest request sits on CLKOUT/CLKOUTP
+                if len(set(names)) == len(names) and names[top] in ("CLKOUT", "CLKOUTP"):
+                    return {"idiv": idiv, "fdiv": fdiv, "odiv": od[0], "clkout": base, "vco": base*od[0],
+                            "pins": [{"pin": c[0], "sdiv": c[1]} for c in combo]}
     return None
 
 
